@@ -181,19 +181,26 @@ impl Recv {
             counts.inc_num_recv_streams(stream);
         }
 
+        // Every content-length field has to be a number, and all of them the
+        // same one (RFC 9110, section 8.6) - also in a response to HEAD, where
+        // the value is not checked against the (absent) content.
+        let mut declared_length = None;
+        for value in frame.fields().get_all(http::header::CONTENT_LENGTH) {
+            match frame::parse_u64(value.as_bytes()) {
+                Ok(v) if declared_length.map_or(true, |prev| prev == v) => {
+                    declared_length = Some(v);
+                }
+                _ => {
+                    proto_err!(stream: "could not parse content-length; stream={:?}", stream.id);
+                    return Err(Error::library_reset(stream.id, Reason::PROTOCOL_ERROR).into());
+                }
+            }
+        }
+
         if !stream.content_length.is_head() {
             use super::stream::ContentLength;
-            use http::header;
 
-            if let Some(content_length) = frame.fields().get(header::CONTENT_LENGTH) {
-                let content_length = match frame::parse_u64(content_length.as_bytes()) {
-                    Ok(v) => v,
-                    Err(_) => {
-                        proto_err!(stream: "could not parse content-length; stream={:?}", stream.id);
-                        return Err(Error::library_reset(stream.id, Reason::PROTOCOL_ERROR).into());
-                    }
-                };
-
+            if let Some(content_length) = declared_length {
                 stream.content_length = ContentLength::Remaining(content_length);
                 // END_STREAM on headers frame with non-zero content-length is malformed.
                 // https://datatracker.ietf.org/doc/html/rfc9113#section-8.1.1
